@@ -194,6 +194,12 @@ pub enum Op {
     /// transport coalescing: the next frame of the peer shares its buffer with a second frame
     /// (PUBLISH of the given QoS and id; qos 3 = PINGREQ when the peer is a client)
     Coalesce { qos: u8, id: u32 },
+    /// the application hands over an id-carrying packet whose id it never obtained (the id that
+    /// acquire would hand out next): 0 SUBSCRIBE, 1 UNSUBSCRIBE, 2 PUBLISH QoS 1, 3 PUBLISH QoS 2, 4 PUBREL
+    SendUnowned { kind: u8 },
+    /// a server application hands over a CONNACK with another Server Keep Alive although no
+    /// CONNECT is pending (established connection, or none at all): refused, changes nothing
+    ConnackAgain { ska: u16 },
     Advance { ms: u64 },
     /// the transport is lost; `partial` > 0: the peer's next frame is cut after that many bytes first
     Close { partial: u16 },
@@ -889,6 +895,42 @@ impl Solo {
             Op::Coalesce { qos, id } => {
                 self.coalesce = Some((*qos, *id));
             }
+            Op::ConnackAgain { ska } => {
+                if self.acting_client || self.w.m.st == St::Connecting || self.w.lenient || self.w.want_close {
+                    return;
+                }
+                let mut p = self.cfg.connack_pkt(false, 0);
+                if v == 5 {
+                    p.props.retain(|x| !matches!(x, Prop::ServerKeepAlive(_) | Prop::SessionExpiry(_)));
+                    p.props.push(Prop::ServerKeepAlive(*ska));
+                }
+                self.app_send(&p);
+            }
+            Op::SendUnowned { kind } => {
+                if self.w.lenient {
+                    return;
+                }
+                let mut id = 1u32;
+                while self.w.m.ids.contains(&id) {
+                    id += 1;
+                }
+                let p = match kind {
+                    0 | 1 => {
+                        let mut p = Pkt::new(v, if *kind == 0 { SUBSCRIBE } else { UNSUBSCRIBE }).with_id(id);
+                        p.filters = vec![("t/#".into(), if *kind == 0 { 1 } else { 0 })];
+                        p
+                    }
+                    2 | 3 => {
+                        let mut p = Pkt::new(v, PUBLISH).with_id(id);
+                        p.qos = kind - 1;
+                        p.topic = TOPICS[0].into();
+                        p.payload = self.payload(0);
+                        p
+                    }
+                    _ => Pkt::new(v, PUBREL).with_id(id),
+                };
+                self.app_send(&p);
+            }
             Op::Advance { ms } => {
                 // idle time never passes an armed deadline without the timer firing first
                 let lim = self.deadline.iter().flatten().min().cloned();
@@ -1424,7 +1466,10 @@ pub fn gen_op(s: &Solo, r: &mut Rng, prof: &GenProfile) -> Op {
         6 => match r.below(6) {
             0 | 1 => Op::Acquire,
             2 => Op::Register { id: *r.pick(&[0u32, 1, 2, 5, 65535, 65534, 70000, u32::MAX]) },
-            3 | 4 => Op::Release { nth: r.below(4) as u8 },
+            3 => Op::Release { nth: r.below(4) as u8 },
+            4 => {
+                if r.chance(1, 3) { Op::SendUnowned { kind: r.below(5) as u8 } } else { Op::Release { nth: r.below(4) as u8 } }
+            }
             _ => Op::ReleaseRaw { id: *r.pick(&[0u32, 9, 65535, 4000]) },
         },
         7 => {
@@ -1440,7 +1485,9 @@ pub fn gen_op(s: &Solo, r: &mut Rng, prof: &GenProfile) -> Op {
             // the peer says goodbye (and may, against the rules, go on talking on the same transport)
             3 => Op::PeerSimple { kind: DISCONNECT },
             // a second CONNECT of the peer on the established connection
-            4 if !s.acting_client => Op::Connect { clean: r.chance(1, 2) },
+            4 if !s.acting_client => {
+                if r.chance(1, 2) { Op::Connect { clean: r.chance(1, 2) } } else { Op::ConnackAgain { ska: *r.pick(&[0u16, 1, 7]) } }
+            }
             _ => Op::Disconnect { rc: if r.chance(1, 2) { 0 } else { 0x04 } },
         },
         11 => Op::Erase { nth: r.below(4) as u8 },
